@@ -1304,6 +1304,179 @@ fn foreign_recurrence_faults(ctx: &Ctx, rng: &mut Rng, s: &SizeInfo, faults: &mu
     false
 }
 
+/// A uniform received region. The SENT codeword is chosen (by linear algebra over the encoder's own outputs) so that
+/// all but m <= t of one block's EC codewords - or of its data codewords - already hold one value c (0xFF, 0x00, the pad
+/// value, arbitrary); the medium sets the remaining m to c as well (stuck-at damage). The received block then shows
+/// a solid region - nothing but dark modules, say - although it is within the radius. Whatever reads meaning into the
+/// look of the RECEIVED word (a "no redundancy left" bail-out, a blank-region heuristic) is exposed.
+fn uniform_region_trace(ctx: &Ctx, rng: &mut Rng, s: &SizeInfo) -> Option<Trace> {
+    let t = s.t();
+    let k = s.k;
+    if t == 0 || !ctx.gf_ok[s.idx] {
+        return None;
+    }
+    let gf = &ctx.gf;
+    let b = rng.below(s.blocks);
+    let nd = s.block_data_len(b);
+    let c: u8 = match rng.below(5) {
+        0 | 1 => 0xFF,
+        2 => 0x00,
+        3 => 129,
+        _ => rng.byte(),
+    };
+    let m = if rng.chance(1, 2) { t } else { rng.range(1, t) };
+    let mut data = raw_data(rng, s);
+    let mut faults: Vec<Fault> = Vec::new();
+    if rng.chance(1, 3) {
+        // the data part of the block
+        let m = m.min(nd);
+        let others = rng.sample_distinct(nd, m);
+        for i in 0..nd {
+            let p = b + i * s.blocks;
+            if others.contains(&i) {
+                if data[p] == c {
+                    data[p] = c ^ rng.nonzero_byte();
+                }
+                faults.push(Fault::new("cw_uniform", Op::CwSet { pos: p as u32, val: c }));
+            } else {
+                data[p] = c;
+            }
+        }
+        return Some(Trace { prop: "C03".into(), producer: Producer::Raw { size: s.idx, data }, faults });
+    }
+    // the EC part of the block: k - m positions must come out as c
+    let keep = k - m;
+    if keep > nd {
+        return None;
+    }
+    let j_idx = {
+        let mut v = rng.sample_distinct(k, keep);
+        v.sort();
+        v
+    };
+    let unknown = rng.sample_distinct(nd, keep); // in-block data indices that are solved for
+    for u in &unknown {
+        data[b + u * s.blocks] = 0;
+    }
+    let base = real_ec(s, &data)?;
+    // columns: the EC of a unit vector at each unknown position
+    let mut cols: Vec<Vec<u8>> = Vec::new();
+    for u in &unknown {
+        let mut unit = vec![0u8; s.n_data];
+        unit[b + u * s.blocks] = 1;
+        cols.push(real_ec(s, &unit)?);
+    }
+    let mut a = vec![0u8; keep * keep];
+    let mut rhs = vec![0u8; keep];
+    for (r, j) in j_idx.iter().enumerate() {
+        let e = b + j * s.blocks;
+        for (cc, col) in cols.iter().enumerate() {
+            a[r * keep + cc] = col[e];
+        }
+        rhs[r] = c ^ base[e];
+    }
+    let sol = gf.solve(&a, &rhs, keep)?;
+    for (cc, u) in unknown.iter().enumerate() {
+        data[b + u * s.blocks] = sol[cc];
+    }
+    let ec = real_ec(s, &data)?;
+    let mut wrong = 0usize;
+    for j in 0..k {
+        let e = b + j * s.blocks;
+        if j_idx.contains(&j) {
+            if ec[e] != c {
+                return None; // the field model and the encoder disagree: give up rather than mis-aim
+            }
+        } else if ec[e] != c {
+            wrong += 1;
+            faults.push(Fault::new("cw_uniform", Op::CwSet { pos: (s.n_data + e) as u32, val: c }));
+        }
+    }
+    if wrong == 0 || wrong > t {
+        return None;
+    }
+    Some(Trace { prop: "C03".into(), producer: Producer::Raw { size: s.idx, data }, faults })
+}
+
+/// Agreement with a phantom on a chosen set of syndromes. e <= t real errors and u = 1 or 2 phantom errors (anywhere in
+/// the field) whose syndromes coincide on an index set I with |I| = e + u: S1, S2 and then the odd ones; the odd ones;
+/// the even ones; a prefix and then every other one; an arbitrary set. For such a square set a solution exists only on
+/// special position sets (a singular generalised Vandermonde matrix, one set in about 255), which are searched for;
+/// the real error values are the kernel vector's components. A decoder that recognises a small pattern from a
+/// THINNED set of syndromes (half of them, "the others follow") takes the real damage for the phantom.
+fn thinned_phantom_faults(ctx: &Ctx, rng: &mut Rng, s: &SizeInfo, faults: &mut Vec<Fault>) -> bool {
+    let t = s.t();
+    let k = s.k;
+    if t < 2 || !ctx.gf_ok[s.idx] {
+        return false;
+    }
+    let gf = &ctx.gf;
+    let b = rng.below(s.blocks);
+    let pos = s.block_positions(b);
+    let nb = pos.len();
+    let e = if rng.chance(1, 2) { t } else { rng.range(2, t) };
+    let u = if rng.chance(2, 3) { 1 } else { 2 };
+    let m = e + u;
+    if e > nb {
+        return false;
+    }
+    let idx: Vec<usize> = match rng.below(5) {
+        0 | 1 => [1usize, 2].into_iter().chain((0..m).map(|i| 3 + 2 * i)).take(m).collect(),
+        2 => (0..m).map(|i| 1 + 2 * i).collect(),
+        3 => (0..m).map(|i| 2 + 2 * i).collect(),
+        _ => {
+            let a = rng.range(1, m - 1);
+            (1..=a).chain((0..m - a).map(|i| a + 2 + 2 * i)).collect()
+        }
+    };
+    let idx: Vec<usize> = if idx.iter().all(|j| *j <= k) && idx.len() == m {
+        idx
+    } else {
+        if m > k {
+            return false;
+        }
+        let mut r = rng.sample_distinct(k, m);
+        r.sort();
+        r.into_iter().map(|x| x + 1).collect()
+    };
+    let tries = (4_000_000 / (m * m * m).max(1)).clamp(20, 400);
+    for _ in 0..tries {
+        let degs = rng.sample_distinct(nb, e);
+        let mut xs: Vec<u8> = degs.iter().map(|d| gf.alpha_pow(*d)).collect();
+        let mut ok = true;
+        for _ in 0..u {
+            let x = gf.alpha_pow(if rng.chance(1, 2) { rng.below(nb) } else { rng.below(255) });
+            if xs.contains(&x) {
+                ok = false;
+                break;
+            }
+            xs.push(x);
+        }
+        if !ok {
+            continue;
+        }
+        let mut a = vec![0u8; m * m];
+        for (r, j) in idx.iter().enumerate() {
+            for c in 0..m {
+                a[r * m + c] = gf_pow(gf, xs[c], *j);
+            }
+        }
+        let x = match gf.kernel_vector(&a, m, m) {
+            Some(x) => x,
+            None => continue,
+        };
+        if x[..e].iter().any(|v| *v == 0) || x[e..].iter().all(|v| *v == 0) {
+            continue;
+        }
+        for (qi, d) in degs.iter().enumerate() {
+            let p = pos[nb - 1 - *d];
+            faults.push(Fault::new("cw_phantom", Op::CwXor { pos: p as u32, mask: x[qi] }));
+        }
+        return true;
+    }
+    false
+}
+
 /// Between two codewords. B is the codeword that differs from the sent codeword A in a few data codewords of one
 /// block (and therefore in nearly all EC codewords of that block: a minimum-distance neighbour when it is one data
 /// codeword). The medium overwrites a SUBSET of the positions where A and B differ with B's values: within the
@@ -2487,6 +2660,11 @@ fn gen_c03(ctx: &Ctx, rng: &mut Rng, i: u64) -> Trace {
             return t;
         }
     }
+    if rng.chance(1, 25) {
+        if let Some(t) = uniform_region_trace(ctx, rng, s) {
+            return t;
+        }
+    }
     let (producer, msg_data) = producer_for_size_d(rng, s, 25);
     let mut faults = Vec::new();
     let t = gen_c03_faults(ctx, rng, s, &mut faults);
@@ -2572,6 +2750,7 @@ fn gen_c03_faults(ctx: &Ctx, rng: &mut Rng, s: &SizeInfo, faults_out: &mut Vec<F
             }
         }
         13 if rng.chance(1, 5) && foreign_recurrence_faults(ctx, rng, s, &mut faults) => {}
+        13 if rng.chance(1, 4) && thinned_phantom_faults(ctx, rng, s, &mut faults) => {}
         13 => {
             faults.clear();
             let b = rng.below(s.blocks);
